@@ -131,14 +131,15 @@ def classifyPlain (cur : Value) (full : Bytes) (vlen : Nat) : VM Value :=
   let n := cAtoi 64 full
   if (n != 0 || full == [48]) && intDecimal n == full then .ok { cur with int64 := n, type := .T_INT }
   else
-    let opc := getOpCode full
-    if opc != 0xff then .ok { cur with int64 := n, opcode := opc, type := .T_OPCODE }
-    else if vlen % 2 == 0 then
-      let h := if vlen > 2 && full.getD 0 0 == 48 && full.getD 1 0 == 120 then full.drop 2 else full
-      match tryHex h with
-      | some d => .ok { cur with int64 := n, opcode := 0xff, data := d, type := .T_DATA }
-      | none => .ok { cur with int64 := n, opcode := 0xff }
-    else .ok { cur with int64 := n, opcode := 0xff }
+    match parseOpCode full with     -- `if (ParseOpCode(v, opcode)) { type = T_OPCODE; return; }` (value.h:238); a refusal leaves opcode = 0xff
+    | some opc => .ok { cur with int64 := n, opcode := opc, type := .T_OPCODE }
+    | none =>
+      if vlen % 2 == 0 then
+        let h := if vlen > 2 && full.getD 0 0 == 48 && full.getD 1 0 == 120 then full.drop 2 else full
+        match tryHex h with
+        | some d => .ok { cur with int64 := n, opcode := 0xff, data := d, type := .T_DATA }
+        | none => .ok { cur with int64 := n, opcode := 0xff }
+      else .ok { cur with int64 := n, opcode := 0xff }
 
 /-- number of '[' minus number of ']' in a word -/
 def bracketBalance (w : Bytes) : Int :=
